@@ -22,6 +22,7 @@ import (
 	"path/filepath"
 	"sort"
 	"strings"
+	"sync"
 	"time"
 
 	"github.com/google/uuid"
@@ -401,6 +402,7 @@ func RunE2E(tw *trace.Writer, o E2EOpts) error {
 	for hi := 0; hi < o.Hists; hi++ {
 		rng := rand.New(rand.NewSource(o.Seed*1000 + int64(hi)))
 		root := filepath.Join(o.Dir, fmt.Sprintf("node-%d-%d", o.Seed, hi))
+		os.RemoveAll(root) // (left behind by a killed run)
 		if err := os.MkdirAll(root, 0o755); err != nil {
 			return err
 		}
@@ -474,6 +476,8 @@ func (h *hist) step() error {
 		return h.create(u, colPool[h.rng.Intn(len(colPool))])
 	case r < 32:
 		return h.deleteCol(u, cols[h.rng.Intn(len(cols))])
+	case r < 38 && !h.big:
+		return h.createRace(u)
 	default:
 		return h.insert(u, cols[h.rng.Intn(len(cols))].Id)
 	}
@@ -492,6 +496,46 @@ func (h *hist) create(u, c string) error {
 		delete(h.known, u+"/"+c)
 	}
 	h.tw.Emit("Create", M{"u": u, "c": c, "maxCols": plan.MaxCollections, "res": res, "msg": msg, "state": st})
+	return nil
+}
+
+// createRace sends several creation requests of one user at the same moment
+// (names may repeat): whatever the order in which the node serves them, the
+// quota holds afterwards and every refused request left nothing behind.
+func (h *hist) createRace(u string) error {
+	plan := h.plans[u]
+	n := 2 + h.rng.Intn(3)
+	names := make([]string, n)
+	for i := range names {
+		names[i] = colPool[h.rng.Intn(len(colPool))]
+	}
+	errs := make([]error, n)
+	var wg sync.WaitGroup
+	start := make(chan struct{})
+	for i := range names {
+		wg.Add(1)
+		go func(i int) {
+			defer wg.Done()
+			<-start
+			errs[i] = h.node.CreateCollection(models.Collection{UserId: u, Id: names[i], Replicas: 1, Timestamp: 1, CreatedAt: 1,
+				UserPlan: plan, IndexSchema: models.IndexSchema{}})
+		}(i)
+	}
+	close(start)
+	wg.Wait()
+	st, oerr := h.observe()
+	if oerr != nil {
+		return oerr
+	}
+	reqs := []M{}
+	for i, c := range names {
+		res, msg := outcome(errs[i])
+		if res == "ok" {
+			delete(h.known, u+"/"+c)
+		}
+		reqs = append(reqs, M{"c": c, "res": res, "msg": msg})
+	}
+	h.tw.Emit("CreateRace", M{"u": u, "maxCols": plan.MaxCollections, "reqs": reqs, "state": st})
 	return nil
 }
 
